@@ -8,6 +8,9 @@ use serde::{Deserialize, Serialize};
 
 #[derive(Clone, Debug, Serialize, Deserialize)]
 pub struct GenCfg {
+    /// selection lengths to aim at now and then (thresholds such as the 40 codepoints of automatic text validation)
+    #[serde(default)]
+    pub pref_lens: Vec<usize>,
     pub n_ops: usize,
     pub max_text_len: usize,
     /// which alphabets are enabled: ascii, 2-byte, 3-byte, 4-byte, combining, whitespace
@@ -115,6 +118,7 @@ impl GenCfg {
             restart_formats: Vec::new(),
             allow_validation_set: false,
             pct_geometry: *rng.pick(&[0, 30, 60]),
+            pref_lens: Vec::new(),
             allow_odd_ids: false,
             pct_redraw_residue: 0,
         }
@@ -340,6 +344,13 @@ impl<'a> Gen<'a> {
                 }
             }
         }
+        if !self.cfg.pref_lens.is_empty() && self.rng.chance(1, 4) {
+            let l = *self.rng.pick(&self.cfg.pref_lens);
+            if l <= len {
+                let b = self.rng.below(len - l + 1);
+                return (b, b + l);
+            }
+        }
         match self.rng.below(10) {
             0 => (0, len),
             1 => (len, len),
@@ -507,12 +518,14 @@ impl<'a> Gen<'a> {
                     let live: Vec<usize> = m.annotations.iter().enumerate().filter(|(_, a)| a.live).map(|(i, _)| i).collect();
                     if live.len() >= n && !bad {
                         let start = live.len() - n;
-                        let whole = self.rng.chance(1, 2);
                         let uid = live[start + i];
-                        let offset = if whole && m.single_text(uid).is_some() {
-                            Some((Cur::B(0), Cur::E(0)))
-                        } else {
-                            None
+                        // per member: the whole annotation, or a begin/end-aligned part of it (a merged range must keep each member's own offset)
+                        let offset = match (m.single_text(uid), self.rng.below(4)) {
+                            (Some(t), 0) if t.e > t.b => Some((Cur::B(0), Cur::E(-(self.rng.range(1, t.e - t.b) as isize)))),
+                            (Some(t), 1) if t.e > t.b => Some((Cur::B(self.rng.range(1, t.e - t.b)), Cur::E(0))),
+                            (Some(_), 2) => None,
+                            (Some(_), _) => Some((Cur::B(0), Cur::E(0))),
+                            (None, _) => None,
                         };
                         subs.push(Sel::Annotation {
                             a: Ref { idx: uid, by: By::Handle },
@@ -652,6 +665,13 @@ impl<'a> Gen<'a> {
                 text: gen_text(self.rng, self.cfg),
             },
             W_ADD_DATASET => {
+                // now and then: declare a key without data in an existing dataset
+                if m.datasets.iter().any(|s| s.live) && self.rng.chance(1, 3) {
+                    return Op::AddKey {
+                        s: self.set_ref(m),
+                        key: pool_id(self.rng, "k", self.cfg.n_key_ids + 2, false),
+                    };
+                }
                 let n = self.rng.below(4);
                 let mut data = Vec::new();
                 for _ in 0..n {
